@@ -222,11 +222,13 @@ Definition drop_po (po : pout) (l : list pout) : list pout :=
   filter (fun x => negb (q_rid (po_req x) =? q_rid (po_req po))) l.
 
 (* on_substream_open_failure *)
-(* the error of the SubstreamOpenFailure: 0 = some substream error (Rejected(SubstreamOpenError)),
-   1 = multistream-select says the protocol is not supported (UnsupportedProtocol), 2 = an i/o
-   error of kind NotConnected, which RejectReason::from turns into Rejected(ConnectionClosed) *)
+(* the error of the SubstreamOpenFailure (the kinds of the hook verif_open_failure_error, listed in
+   Tables.open_failure_kinds): 1 = multistream-select says the protocol is not supported
+   (UnsupportedProtocol); 2, 10, 11, 12 = the four shapes of an i/o error of kind NotConnected that
+   RejectReason::from turns into Rejected(ConnectionClosed); every other substream error, including
+   the same shapes with another i/o error kind, is Rejected(SubstreamOpenError(_)) *)
 Definition openfail_code (kind : N) : N :=
-  match kind with 1 => E_UNSUPPORTED | 2 => E_CONN_CLOSED | _ => E_SUBSTREAM end.
+  match kind with 1 => E_UNSUPPORTED | 2 | 10 | 11 | 12 => E_CONN_CLOSED | _ => E_SUBSTREAM end.
 Definition h_openfail (s : pst) (sid : N) (unsupported : N) : pst * list out :=
   match find_po sid (pouts s) with
   | None => (s, [])
